@@ -77,3 +77,23 @@ Example C15_src_examples :
   gen_AssignError_is_failed_to_parse_index a = Ret true /\ gen_AssignError_is_out_of_bounds a = Ret false /\
   gen_AssignError_labels a [47;97;47;48;49] = Ret (Some (3, 2)).
 Proof. vm_compute. repeat split. Qed.
+
+(* ==== errors of the mutating walks, re-translated in lens mode (DESIGN 13.8) ============================================= *)
+From JP Require Import Model.Pointer SpecHist Proofs.ModelLaws Proofs.HistoryProofs Generated.ScanTreeMut Proofs.GenEquivTreeMut Proofs.GenClosureMut.
+
+(* an error returned by the source's assign, read with the source's own accessors position() / offset(), locates the culprit
+   token of p (p.get(position) is it, p.split_at(offset) cuts before it) and carries the payload of the first failure *)
+Theorem C15_src_assign_error_locates : forall (be : backend) (d : value) (p : str) (v d' : value) (e : AssignError),
+  sorted_value d -> valid_ptr p = true -> gen_assign be d (lens_root d) p v = Ret (d', Err e) ->
+  exists pos off, gen_AssignError_position e = Ret pos /\ gen_AssignError_offset e = Ret off /\
+    SpecTree.error_locates_culprit p pos off /\ assign_first_failure (tokens p) d (model_aerr e).
+Proof. exact gen_assign_error_diag. Qed.
+Print Assumptions C15_src_assign_error_locates.
+
+(* likewise for resolve_mut as translated with its reference result (both backends) *)
+Theorem C15_src_resolve_mut_error_locates : forall (be : backend) (d : value) (p : str) (root : value) (e : ResolveError),
+  valid_ptr p = true -> gen_resolve_mut_lens be d (lens_root d) p = Ret (root, Err e) ->
+  exists pos off, gen_ResolveError_position e = Ret pos /\ gen_ResolveError_offset e = Ret off /\
+    SpecTree.error_locates_culprit p pos off /\ first_failure (tokens p) d (model_rerr e).
+Proof. exact gen_resolve_mut_error_diag. Qed.
+Print Assumptions C15_src_resolve_mut_error_locates.
